@@ -229,6 +229,8 @@ func scC03Fault(w *World, a Args, rng *rand.Rand) error {
 	call("retry", 3, true)
 	w.WaitRunning(3, 300*time.Millisecond)
 	call("notify", 4, false)
+	call("retryfalse", 10, true) // tagged retry:"false": an untagged call as far as re-sending goes
+	w.WaitRunning(10, 300*time.Millisecond)
 	if withSub {
 		w.Plan(8, &Plan{})
 		subDone = make(chan struct{})
@@ -278,6 +280,7 @@ func scC03Fault(w *World, a Args, rng *rand.Rand) error {
 		w.Release(k)
 		time.Sleep(time.Duration(rng.Intn(400)) * time.Microsecond)
 	}
+	w.Release(10)
 	if window {
 		// wait until the client sits at the dial gate (inside the reconnect window), then call
 		dl := time.Now().Add(2 * time.Second)
@@ -367,6 +370,8 @@ func scC05Outage(w *World, a Args, rng *rand.Rand) error {
 	}
 	call("unary", 1, true) // in flight when the link drops
 	call(retryKind, 3, true)
+	call("retryfalse", 2, true) // tagged retry:"false": in flight when the link drops, not to be sent again
+	w.WaitRunning(2, 300*time.Millisecond)
 	w.WaitRunning(1, 300*time.Millisecond)
 	w.WaitRunning(3, 300*time.Millisecond)
 	w.Rec.Emit("PhaseEnd", "phase", "healthy")
@@ -378,6 +383,7 @@ func scC05Outage(w *World, a Args, rng *rand.Rand) error {
 		w.Proxy.Last().Kill(a.Str("style", "fin"))
 	}
 	w.Release(1)
+	w.Release(2)
 	w.Release(3)
 	// wait for k failed dials, issuing calls during the outage
 	dl := time.Now().Add(5 * time.Second)
